@@ -67,6 +67,7 @@ type Enc struct {
 	indexTerms []indexTerm
 	pol        int // polarity of the formula being evaluated: +1 goal, -1 hypothesis, 0 unknown
 	goalSkolems []string
+	renamesUsed map[string]bool // contract names resolved through the locals snapshot
 	nestInst int
 	droppedNested int
 	curGoalSkolems []string // Skolem constants of the goal whose hypotheses are being instantiated
@@ -88,7 +89,7 @@ type Enc struct {
 func newEnc(w *World, fn *ssa.Function, fc *FuncContract) *Enc {
 	return &Enc{w: w, top: fn, fc: fc, ctr: map[string]int{}, entryHeaps: map[string]*Heap{}, heapKinds: map[string]Kind{},
 		lemmaDone: map[string]bool{}, strLits: map[string]string{}, fLits: map[string]string{}, siteCtr: map[string]int{},
-		usedTypeInvs: map[string]bool{}, specFuncs: map[*ssa.Function]string{}, usedContracts: map[string]bool{}, usedLib: map[string]bool{}, iters: map[*ssa.Range]*iterInfo{}}
+		usedTypeInvs: map[string]bool{}, specFuncs: map[*ssa.Function]string{}, usedContracts: map[string]bool{}, usedLib: map[string]bool{}, iters: map[*ssa.Range]*iterInfo{}, renamesUsed: map[string]bool{}}
 }
 
 func (e *Enc) emit(l string) { e.lines = append(e.lines, l) }
